@@ -35,16 +35,43 @@ type dur struct {
 	ns   int64
 }
 
-// Range durations: below and above the 15 s threshold of the metrics_15s shortcut. All of
-// them divide 24 h: for other durations FixPeriodPlanner widens the window on a grid that
-// starts in year 1 (finding C09-range-grid-year-one, fixed on fix/c09), and all >= 15 s are
-// multiples of 15 s (see rangesOffGrid).
-var ranges = []dur{{1, "s", 1e9}, {2, "s", 2e9}, {5, "s", 5e9}, {10, "s", 10e9}, {15, "s", 15e9}, {30, "s", 30e9}, {1, "m", 60e9}, {2, "m", 120e9}, {5, "m", 300e9}, {1500, "ms", 15e8}}
+// Range durations. `ranges`: whole seconds / minutes below and above the 15 s threshold of
+// the metrics_15s shortcut. `rangesOffGrid`: >= 15 s but not a multiple of 15 s (fixed finding
+// C08-shortcut-range-not-multiple-of-15s). `rangesOdd`: the same regions written in ms / us /
+// ns — one unit off the threshold and its multiples (the shortcut decision must be made on
+// the exact duration, not on truncated seconds or milliseconds), exactly on it in another
+// unit, sub-second and sub-millisecond ranges, and durations that do not divide 24 h (the
+// bucket grid is epoch-aligned: fix/c09's FixPeriodPlanner repair is merged).
+// qryn's grammar takes one integer and one unit (logql_parser/model_v2.go LRAOrUnwrap:
+// "[" @Integer @("ns"|"us"|"ms"|"s"|"m"|"h") "]"): `[1m500ms]` is a parse error, not a
+// supported query, so mixed units are written as their value in the smaller unit (60500ms).
+var ranges = []dur{{1, "s", 1e9}, {2, "s", 2e9}, {5, "s", 5e9}, {10, "s", 10e9}, {15, "s", 15e9}, {30, "s", 30e9}, {1, "m", 60e9}, {2, "m", 120e9}, {5, "m", 300e9}}
 
-// rangesOffGrid: >= 15 s but not a multiple of 15 s. rate / count_over_time were answered
-// from 15 s pre-aggregates that straddle the range buckets (fixed finding
-// C08-shortcut-range-not-multiple-of-15s).
-var rangesOffGrid = []dur{{20, "s", 20e9}, {40, "s", 40e9}, {100, "s", 100e9}}
+var rangesOffGrid = []dur{{20, "s", 20e9}, {40, "s", 40e9}, {100, "s", 100e9}, {7, "s", 7e9}, {7, "m", 420e9}}
+
+var rangesOdd = mkDurs(
+	"14999ms", "15000ms", "15001ms", "15500ms", "15999ms", "16000ms", "29999ms", "30000ms", "30001ms", "30500ms",
+	"45000001us", "45000000us", "44999999us", "15000001us", "14999999us", "15000000us",
+	"15000000001ns", "14999999999ns", "15000000000ns", "30000000001ns", "60000000000ns", "60000000001ns",
+	"60500ms", "59999ms", "60001ms", "90000ms", "75000ms",
+	"1500ms", "2500ms", "999ms", "1001ms", "500ms", "1500000us", "2000000000ns",
+	"1500us", "2500000ns", "999us", "700ns",
+)
+
+func mkDurs(specs ...string) []dur {
+	mult := map[string]int64{"ns": 1, "us": 1e3, "ms": 1e6, "s": 1e9, "m": 60e9, "h": 3600e9}
+	var out []dur
+	for _, sp := range specs {
+		i := 0
+		for i < len(sp) && sp[i] >= '0' && sp[i] <= '9' {
+			i++
+		}
+		var n int64
+		fmt.Sscan(sp[:i], &n)
+		out = append(out, dur{n, sp[i:], n * mult[sp[i:]]})
+	}
+	return out
+}
 
 var logFns = []string{"rate", "count_over_time", "bytes_rate", "bytes_over_time"}
 var unwrapFns = []string{"rate", "sum_over_time", "sum_over_time", "avg_over_time", "avg_over_time", "min_over_time", "min_over_time", "max_over_time", "max_over_time", "first_over_time", "first_over_time", "last_over_time", "last_over_time", "stdvar_over_time", "stddev_over_time"}
@@ -146,7 +173,11 @@ func genShape(rt *rapid.T, rangeNs int64) (c07.Window, int64) {
 	w := c07.Window{FromS: from, ToS: from + l}
 	rangeMs := rangeNs / 1e6
 	var step int64
-	switch rapid.IntRange(0, 5).Draw(rt, "stepk") {
+	switch rapid.IntRange(0, 6).Draw(rt, "stepk") {
+	case 6:
+		// one millisecond around step == range (StepFixPlanner regroups only when the
+		// range is smaller than the step)
+		step = rangeMs + int64(rapid.IntRange(-1, 1).Draw(rt, "step1"))
 	case 0, 1:
 		step = rangeMs
 	case 2:
@@ -168,26 +199,30 @@ func genShape(rt *rapid.T, rangeNs int64) (c07.Window, int64) {
 	return w, step
 }
 
-func genMetricCase(rt *rapid.T, offGrid bool) MetricCase {
+func genRange(rt *rapid.T) dur {
+	switch k := rapid.IntRange(0, 19).Draw(rt, "rangekind"); {
+	case k < 9:
+		return rapid.SampledFrom(ranges).Draw(rt, "range0")
+	case k < 11:
+		return rapid.SampledFrom(rangesOffGrid).Draw(rt, "range0-off")
+	default:
+		return rapid.SampledFrom(rangesOdd).Draw(rt, "range0-odd")
+	}
+}
+
+func genMetricCase(rt *rapid.T) MetricCase {
 	var c MetricCase
 	// the range is part of the query, but window and data are placed relative to it: draw it first
-	rIdx := rapid.SampledFrom(ranges).Draw(rt, "range0")
-	if offGrid {
-		rIdx = rapid.SampledFrom(rangesOffGrid).Draw(rt, "range0-off")
-	}
-	c.W, c.StepMs = genShape(rt, rIdx.ns)
-	spread := rIdx.ns + 2e9
-	c.DB = c07.GenDB(rt, c.W, c07.DBOpt{MaxSeries: 5, MaxSamples: 10, SpreadNs: spread, GridNs: rIdx.ns, OtherTypes: true})
-	c.Q = genMetricQuery(rt, &c.DB, rIdx)
+	r := genRange(rt)
+	c.W, c.StepMs = genShape(rt, r.ns)
+	spread := r.ns + 2e9
+	c.DB = c07.GenDB(rt, c.W, c07.DBOpt{MaxSeries: 5, MaxSamples: 10, SpreadNs: spread, GridNs: r.ns, OtherTypes: true})
+	c.Q = genMetricQuery(rt, &c.DB, r)
 	c.Cluster = c07.Chance(rt, "cluster", 15)
 	return c
 }
 
-func genMetric(rt *rapid.T) MetricCase {
-	// ranges >= 15 s that are not multiples of 15 s: once answered from straddling 15 s
-	// pre-aggregates (fixed finding C08-shortcut-range-not-multiple-of-15s)
-	return genMetricCase(rt, c07.Chance(rt, "offgrid", 8))
-}
+func genMetric(rt *rapid.T) MetricCase { return genMetricCase(rt) }
 
 // ---- comparison --------------------------------------------------------------------------------
 
@@ -328,7 +363,20 @@ func TagMetric(o *evid.Obs, c *MetricCase) {
 	} else {
 		o.Tag("range<15s")
 	}
+	o.Tag("range-unit:" + e.RangeUnit)
+	if rng%1e9 != 0 {
+		o.Tag("range-not-whole-seconds")
+	}
+	if rng%1e6 != 0 {
+		o.Tag("range-not-whole-milliseconds")
+	}
+	if d := rng % 15e9; rng >= 14e9 && (d <= 1e9 || d >= 14e9) && d != 0 {
+		o.Tag("range-within-1s-of-a-multiple-of-15s")
+	}
 	step := c.StepMs * 1e6
+	if d := step - rng; d != 0 && d >= -1e6 && d <= 1e6 {
+		o.Tag("step-within-1ms-of-range")
+	}
 	switch {
 	case step < rng:
 		o.Tag("step<range")
@@ -392,7 +440,7 @@ func reference(c *MetricCase, o *evid.Obs) (res refeval.MetricResultSQL, discard
 	if err := c.DB.Validate(); err != nil {
 		return res, "invalid-db"
 	}
-	if c.StepMs <= 0 || c.Q.RangeNs() <= 0 || 86400e9%c.Q.RangeNs() != 0 {
+	if c.StepMs <= 0 || c.Q.RangeNs() <= 0 {
 		return res, "shape-outside-domain"
 	}
 	res, err := refeval.EvalMetricSQL(&c.Q, c.DB.Ref(), c.params())
@@ -411,9 +459,6 @@ func reference(c *MetricCase, o *evid.Obs) (res refeval.MetricResultSQL, discard
 	alt, err := refeval.EvalMetricSQL(c07.DotNL(&c.Q), c.DB.Ref(), c.params())
 	if err != nil || fmt.Sprint(alt.Series) != fmt.Sprint(res.Series) {
 		return res, "dontcare:regex-dot-vs-newline"
-	}
-	if c07.InLikeEscapeRegion(c.Q.Stages) && !o.Witness {
-		return res, "excluded:like-escaping(C10)"
 	}
 	return res, ""
 }
